@@ -91,8 +91,16 @@ package geom
 //@   split w.dimensions 2 3 4
 //@   requires TwInv(w) && sub != nil
 //@   modifies w
+//@   requires sub != w
 //@   ensures TwInv(w) && onlychanged(w, bboxValid, bboxMin, bboxMax)
-//@   loop 0 invariant 0 <= d && d <= w.dimensions && TwInv(w) && onlychanged(w, bboxValid, bboxMin, bboxMax)
+//@   ensures w.bboxValid <==> (old(w.bboxValid) || sub.bboxValid)
+//@   ensures sub.bboxValid ==> (forall k :: 0 <= k && k < w.dimensions ==> w.bboxMin[k] <= sub.bboxMin[k] && w.bboxMax[k] >= sub.bboxMax[k])
+//@   ensures sub.bboxValid && old(w.bboxValid) ==> (forall k :: 0 <= k && k < w.dimensions ==> w.bboxMin[k] <= old(w.bboxMin[k]) && w.bboxMax[k] >= old(w.bboxMax[k]))
+//@   ensures sub.bboxValid ==> (forall k :: 0 <= k && k < w.dimensions ==> (w.bboxMin[k] == sub.bboxMin[k] || (old(w.bboxValid) && w.bboxMin[k] == old(w.bboxMin[k]))) && (w.bboxMax[k] == sub.bboxMax[k] || (old(w.bboxValid) && w.bboxMax[k] == old(w.bboxMax[k]))))
+//@   ensures !sub.bboxValid ==> (forall k :: 0 <= k && k < 4 ==> w.bboxMin[k] == old(w.bboxMin[k]) && w.bboxMax[k] == old(w.bboxMax[k]))
+//@   loop 0 invariant 0 <= d && d <= w.dimensions && TwInv(w) && onlychanged(w, bboxValid, bboxMin, bboxMax) && sub.bboxValid && w.bboxValid == old(w.bboxValid)
+//@   loop 0 invariant forall k :: 0 <= k && k < d ==> w.bboxMin[k] <= sub.bboxMin[k] && w.bboxMax[k] >= sub.bboxMax[k] && (old(w.bboxValid) ==> w.bboxMin[k] <= old(w.bboxMin[k]) && w.bboxMax[k] >= old(w.bboxMax[k])) && (w.bboxMin[k] == sub.bboxMin[k] || (old(w.bboxValid) && w.bboxMin[k] == old(w.bboxMin[k]))) && (w.bboxMax[k] == sub.bboxMax[k] || (old(w.bboxValid) && w.bboxMax[k] == old(w.bboxMax[k])))
+//@   loop 0 invariant forall k :: d <= k && k < 4 ==> w.bboxMin[k] == old(w.bboxMin[k]) && w.bboxMax[k] == old(w.bboxMax[k])
 
 //@ func (*twkbWriter).writePoint
 //@   requires TwInv(w)
